@@ -806,4 +806,339 @@ theorem copyDense_preserves (m : Src) (s : St) (h : copyDense m = some s) :
 example : ((copyDense ⟨1, 1, .fin (1/2), [[[.fin 1]]], [[[.fin 3]]]⟩).map (fun s => get2 s.R 0 0) == some (.fin 3)) = true := by
   decide +kernel
 
+/-! ## AMDP: the derived model is a valid finite MDP -/
+
+theorem keep_pos (e : Ev) (h0 : 0 ≤ e.p) (hk : e.keep = true) : tol < e.p := by
+  have key : e.keep = !decide ((if 0 + -e.p < 0 then -(0 + -e.p) else 0 + -e.p) ≤ tol) := rfl
+  rw [key] at hk
+  simp only [Bool.not_eq_true', decide_eq_false_iff_not, not_le] at hk
+  split_ifs at hk with hneg <;> linarith
+
+theorem eqSmall_zero_iff (x : Rat) : eqSmall (.fin x) (.fin 0) = true ↔ -tol ≤ x ∧ x ≤ tol := by
+  have key : eqSmall (.fin x) (.fin 0) = decide ((if x + -0 < 0 then -(x + -0) else x + -0) ≤ tol) := rfl
+  rw [key, decide_eq_true_eq]
+  constructor
+  · intro h; split_ifs at h with hneg <;> constructor <;> linarith
+  · rintro ⟨h1, h2⟩; split_ifs with hneg <;> linarith
+
+/-- an accumulated transition entry is either untouched (0) or carries more than the tolerance -/
+theorem accT_zero_or_big (evs : List Ev) (hp : ∀ e ∈ evs, 0 ≤ e.p) (a s s1 : Nat) :
+    accT evs a s s1 = 0 ∨ tol < accT evs a s s1 := by
+  induction evs with
+  | nil => left; rfl
+  | cons e r ih =>
+      have ihr := ih (fun x hx => hp x (by simp [hx]))
+      unfold accT at ihr ⊢
+      simp only [List.filter_cons]
+      split
+      · rename_i hm
+        simp only [Bool.and_eq_true] at hm
+        have := keep_pos e (hp e (by simp)) hm.1
+        right
+        simp only [List.map, sumQ]
+        have ht := tol_pos
+        rcases ihr with h0 | hb <;> linarith
+      · exact ihr
+
+theorem le_sumQ_range (n : Nat) (f : Nat → Rat) (hf : ∀ j < n, 0 ≤ f j) (i : Nat) (hi : i < n) :
+    f i ≤ sumQ ((List.range n).map f) ∧ 0 ≤ sumQ ((List.range n).map f) := by
+  induction n with
+  | zero => omega
+  | succ n ih =>
+      rw [List.range_succ, List.map_append, sumQ_append]
+      simp only [List.map, sumQ, add_zero]
+      have hn := hf n (by omega)
+      have hnn : 0 ≤ sumQ ((List.range n).map f) := by
+        clear ih hi
+        induction n with
+        | zero => simp [sumQ]
+        | succ m ihm =>
+            rw [List.range_succ, List.map_append, sumQ_append]
+            simp only [List.map, sumQ, add_zero]
+            have := ihm (fun j hj => hf j (by omega)) (hf m (by omega))
+            have := hf m (by omega)
+            linarith
+      by_cases h : i < n
+      · have := (ih (fun j hj => hf j (by omega)) h).1
+        constructor <;> linarith
+      · have : i = n := by omega
+        subst this
+        constructor <;> linarith
+
+theorem sumQ_map_div (l : List Nat) (f : Nat → Rat) (c : Rat) :
+    sumQ (l.map fun x => f x / c) = sumQ (l.map f) / c := by
+  induction l with
+  | nil => simp [sumQ]
+  | cons x r ih => simp only [List.map, sumQ, ih]; ring
+
+theorem accT_nonneg (evs : List Ev) (hp : ∀ e ∈ evs, 0 ≤ e.p) (a s s1 : Nat) : 0 ≤ accT evs a s s1 := by
+  have ht := tol_pos
+  rcases accT_zero_or_big evs hp a s s1 with h | h <;> linarith
+
+/-- **amdp_valid, transition part** (both discretizeDense and discretizeSparse): for every contribution list with
+    non-negative masses, every bucket count n, action a and bucket s < n, the normalised row sums to exactly one and
+    has non-negative entries — visited or not. -/
+theorem amdp_rows_are_distributions (evs : List Ev) (hp : ∀ e ∈ evs, 0 ≤ e.p) (n a s : Nat) (hs : s < n) :
+    sumQ ((List.range n).map (amdpT evs n a s)) = 1 ∧ ∀ s1 < n, 0 ≤ amdpT evs n a s s1 := by
+  have ht := tol_pos
+  have hnn : ∀ j < n, 0 ≤ accT evs a s j := fun j _ => accT_nonneg evs hp a s j
+  have hsum := le_sumQ_range n (accT evs a s) hnn
+  by_cases hz : eqSmall (.fin (rowSumT evs n a s)) (.fin 0) = true
+  · -- nobody reached this bucket: every accumulated entry is 0 and the row becomes the unit vector at s
+    have hle := ((eqSmall_zero_iff _).1 hz).2
+    have hzero : ∀ j < n, accT evs a s j = 0 := by
+      intro j hj
+      rcases accT_zero_or_big evs hp a s j with h | h
+      · exact h
+      · have := (hsum j hj).1; unfold rowSumT at hle; linarith
+    have hrow : (List.range n).map (amdpT evs n a s) = (List.range n).map (fun j => if j = s then (1 : Rat) else 0) := by
+      apply List.map_congr_left
+      intro j hj
+      have hj' := List.mem_range.1 hj
+      simp only [amdpT, hz, if_true]
+      split_ifs
+      · rfl
+      · exact hzero j hj'
+    constructor
+    · rw [hrow, sumQ_indicator]; simp [hs]
+    · intro j hj
+      simp only [amdpT, hz, if_true]
+      split_ifs
+      · norm_num
+      · rw [hzero j hj]
+  · have hne : ¬ (-tol ≤ rowSumT evs n a s ∧ rowSumT evs n a s ≤ tol) := fun h => hz ((eqSmall_zero_iff _).2 h)
+    have hpos : 0 < rowSumT evs n a s := by
+      have h0 : 0 ≤ rowSumT evs n a s := by
+        unfold rowSumT
+        cases n with
+        | zero => omega
+        | succ m => exact (hsum 0 (by omega)).2
+      by_contra hcon
+      apply hne
+      constructor <;> linarith
+    have hrow : (List.range n).map (amdpT evs n a s) = (List.range n).map (fun j => accT evs a s j / rowSumT evs n a s) := by
+      apply List.map_congr_left
+      intro j _
+      simp only [amdpT, hz, Bool.false_eq_true, if_false]
+    constructor
+    · rw [hrow, sumQ_map_div]
+      unfold rowSumT at hpos ⊢
+      exact div_self (ne_of_gt hpos)
+    · intro j hj
+      simp only [amdpT, hz, Bool.false_eq_true, if_false]
+      exact div_nonneg (hnn j hj) (le_of_lt hpos)
+
+/-- **amdp_valid, reward part, dense** — with the division guarded (after fix C06-4; `guarded` is read from the source)
+    every R(s,a) is finite, visited or not -/
+theorem amdp_dense_reward_finite (evs : List Ev) (n s a : Nat) :
+    isFin (amdpRDense true evs n s a) = true := by
+  unfold amdpRDense
+  by_cases hz : eqSmall (.fin (rowSumT evs n a s)) (.fin 0) = true
+  · simp [hz, isFin]
+  · simp only [Bool.true_and, hz, Bool.false_eq_true, if_false, qdivX]
+    have hne : rowSumT evs n a s ≠ 0 := by
+      intro h0
+      apply hz
+      rw [h0]
+      exact (eqSmall_zero_iff 0).2 ⟨by linarith [tol_pos], by linarith [tol_pos]⟩
+    simp [hne, isFin]
+
+/-- FULL STATEMENT: `∀ evs n s a, isFin (amdpRDense AITB.Gen.Guards.amdpDenseGuardedDivide evs n s a)`.
+    False of the code as first read (`R(s,a) /= T[a].row(s).sum()` unconditionally): for EVERY bucket nobody visited
+    the reward is 0/0 = nan. -/
+theorem amdp_dense_unvisited_nan_counterexample (evs : List Ev) (n s a : Nat)
+    (hT : rowSumT evs n a s = 0) (hR : accR false evs s a = 0) :
+    amdpRDense false evs n s a = .nan := by
+  simp [amdpRDense, hT, hR, qdivX]
+
+example : (amdpRDense false [] 2 0 0 == .nan) = true ∧ (amdpRDense true [] 2 0 0 == .fin 0) = true ∧
+    (amdpRSparse [] 2 0 0 == .fin 0) = true := by decide +kernel
+
+/-- bucket index of `makeDiscretizer` stays inside the augmented state space, whatever the entropy term `k` -/
+theorem discretize_lt (S buckets maxS k : Nat) (hm : maxS < S) (hb : 0 < buckets) :
+    discretize S buckets maxS k < S * buckets := by
+  unfold discretize
+  obtain ⟨b, rfl⟩ : ∃ b, buckets = b + 1 := ⟨buckets - 1, by omega⟩
+  have h1 : S * min k (b + 1 - 1) ≤ S * b := Nat.mul_le_mul_left S (by simp)
+  have h2 : S * (b + 1) = S * b + S := Nat.mul_succ S b
+  omega
+
+/-! ## sparse conversion -/
+
+theorem eqSmall_one_left_iff (x : XRat) :
+    eqSmall (.fin 1) x = true ↔ ∃ s, x = .fin s ∧ -tol ≤ 1 - s ∧ 1 - s ≤ tol := by
+  cases x with
+  | nan => simp [eqSmall, xsub, xneg, xadd, xabs, XRat.le]
+  | pinf => simp [eqSmall, xsub, xneg, xadd, xabs, XRat.le]
+  | ninf => simp [eqSmall, xsub, xneg, xadd, xabs, XRat.le]
+  | fin s =>
+      have key : eqSmall (.fin 1) (.fin s) = decide ((if 1 + -s < 0 then -(1 + -s) else 1 + -s) ≤ tol) := rfl
+      rw [key, decide_eq_true_eq]
+      constructor
+      · intro h
+        refine ⟨s, rfl, ?_⟩
+        split_ifs at h with hneg <;> constructor <;> linarith
+      · rintro ⟨s', hs', h1, h2⟩
+        cases hs'
+        split_ifs with hneg <;> linarith
+
+theorem sparsify_eq_fin (p : XRat) (q' : Rat) (h : sparsify p = .fin q') : ∃ q, p = .fin q ∧ q' = spQ q := by
+  cases p with
+  | nan => simp [sparsify, diffSmall, eqSmall, xsub, xneg, xadd, xabs, XRat.le] at h
+  | pinf => simp [sparsify, diffSmall, eqSmall, xsub, xneg, xadd, xabs, XRat.le] at h
+  | ninf => simp [sparsify, diffSmall, eqSmall, xsub, xneg, xadd, xabs, XRat.le] at h
+  | fin q => rw [sparsify_fin] at h; cases h; exact ⟨q, rfl, rfl⟩
+
+/-- OBLIGATION over the generated table: the per-entry guard of the sparse converting constructors
+    (`p < 0.0 || p > 1.0`) lets through, among finite numbers, exactly [0,1] -/
+theorem sparseEntryGuard_ok :
+    sparseEntryGuard.litsIn01 = true ∧ sparseObsEntryGuard.litsIn01 = true ∧
+    Cls.all.all (fun c => sparseEntryGuard.eval c.rep || c == .zero || c == .mid || c == .one || c == .nan) = true ∧
+    Cls.all.all (fun c => sparseObsEntryGuard.eval c.rep || c == .zero || c == .mid || c == .one || c == .nan) = true := by
+  decide +kernel
+
+theorem cls_fin_unit (q : Rat) (h : cls (.fin q) = .zero ∨ cls (.fin q) = .mid ∨ cls (.fin q) = .one) : 0 ≤ q ∧ q ≤ 1 := by
+  simp only [cls] at h
+  split_ifs at h with h1 h2 h3 h4 <;> simp at h
+  · subst h2; norm_num
+  · exact ⟨not_lt.1 h1, le_of_lt h3⟩
+  · subst h4; norm_num
+
+theorem entryGuard_fin (g : GExpr) (hl : g.litsIn01 = true)
+    (hall : Cls.all.all (fun c => g.eval c.rep || c == .zero || c == .mid || c == .one || c == .nan) = true)
+    (q : Rat) (h : g.eval (.fin q) = false) : 0 ≤ q ∧ q ≤ 1 := by
+  rw [List.all_eq_true] at hall
+  have := hall (cls (.fin q)) (mem_all _)
+  rw [← eval_rep g hl, h] at this
+  apply cls_fin_unit
+  have hnn : (cls (.fin q) == Cls.nan) = false := by simp only [cls]; split_ifs <;> rfl
+  simp only [Bool.false_or, hnn, Bool.or_false, Bool.or_eq_true, beq_iff_eq] at this
+  tauto
+
+/-- a row that passed the sparse converting constructor's two tests, as stored: strict distribution -/
+theorem sparse_copy_row (g : GExpr) (hl : g.litsIn01 = true)
+    (hall : Cls.all.all (fun c => g.eval c.rep || c == .zero || c == .mid || c == .one || c == .nan) = true)
+    (row : List XRat) (hent : row.all (fun p => !(g.eval p)) = true)
+    (hsum : diffSmall (.fin 1) (sumX (row.map sparsify)) = false) : RowDist 0 tol (row.map sparsify) := by
+  simp only [diffSmall, Bool.not_eq_false'] at hsum
+  obtain ⟨s, hs, h1, h2⟩ := (eqSmall_one_left_iff _).1 hsum
+  obtain ⟨qs, hrow, hq⟩ := sumX_eq_fin _ s hs
+  refine ⟨qs, hrow, ?_, by rw [← hq]; linarith, by rw [← hq]; linarith⟩
+  intro q' hq'
+  have hmem : XRat.fin q' ∈ row.map sparsify := by rw [hrow]; exact List.mem_map.2 ⟨q', hq', rfl⟩
+  obtain ⟨p, hp, hpe⟩ := List.mem_map.1 hmem
+  obtain ⟨q, rfl, rfl⟩ := sparsify_eq_fin p q' hpe
+  rw [List.all_eq_true] at hent
+  have := hent _ hp
+  have hb := entryGuard_fin g hl hall q (by simpa using this)
+  exact (spQ_bounds hb.1).1
+
+/-- **convert_preserves (to sparse)**: `MDP::SparseModel(const M&)` from ANY source model.  If it accepts: same
+    discount; every transition entry is the source's unless its magnitude is at most the tolerance, in which case
+    it is dropped (so entries differ by ≤ 1e-6); every stored row is a strict distribution (non-negative, within the
+    tolerance of one — the row test runs on what is stored); R(s,a) accumulates `r·p` over the successors whose
+    reward differs from 0. -/
+theorem copySparse_preserves (m : Src) (s : St) (h : copySparse m = some s) :
+    s.S = m.S ∧ s.A = m.A ∧ s.disc = m.disc ∧ (discGuard .sparse).eval m.disc = false ∧
+    (∀ a < m.A, ∀ x < m.S, ∀ x1 < m.S, get3 s.T a x x1 = sparsify (get3 m.T x a x1)) ∧
+    (∀ x < m.S, ∀ a < m.A, get2 s.R x a = expRewardSparseCopy m x a) ∧
+    RowsOK (RowDist 0 tol) s.T := by
+  unfold copySparse at h
+  by_cases hg : (discGuard .sparse).eval m.disc = true
+  · simp [hg] at h
+  · have hg' : (discGuard .sparse).eval m.disc = false := by simpa using hg
+    simp only [hg', Bool.false_eq_true, if_false] at h
+    split at h
+    · rename_i hall
+      simp only [Option.some.injEq] at h
+      subst h
+      refine ⟨rfl, rfl, rfl, hg', ?_, ?_, ?_⟩
+      · intro a ha x hx x1 hx1; exact get3_mk3 _ _ _ _ _ _ _ ha hx hx1
+      · intro x hx a ha; exact get2_mk2 _ _ _ _ _ hx ha
+      · apply rowsOK_mk3
+        intro a ha x hx
+        simp only [List.all_eq_true, List.mem_range, Bool.and_eq_true] at hall
+        obtain ⟨h1, h2⟩ := hall x hx a ha
+        have := sparse_copy_row sparseEntryGuard sparseEntryGuard_ok.1 sparseEntryGuard_ok.2.2.1 (srcRow m x a)
+          (by rw [List.all_eq_true]; exact h1) (by simpa using h2)
+        simpa [srcRow, rowOf, List.map_map, Function.comp_def] using this
+    · cases h
+
+theorem sparsify_close (q : Rat) : ∃ q', sparsify (.fin q) = .fin q' ∧ -tol ≤ q - q' ∧ q - q' ≤ tol :=
+  ⟨spQ q, sparsify_fin q, (spQ_close q).1, (spQ_close q).2⟩
+
+/-! ## DDNGraph::push -/
+
+/-- strictly increasing from a lower bound -/
+def IncFrom : Nat → List Nat → Prop
+  | _, [] => True
+  | p, v :: r => p < v ∧ IncFrom v r
+
+theorem checkTagLoop_none (n prev : Nat) (l : List Nat) (h : checkTagLoop n prev l = .none) :
+    (∀ v ∈ l, v < n) ∧ IncFrom prev l := by
+  induction l generalizing prev with
+  | nil => exact ⟨by simp, trivial⟩
+  | cons v r ih =>
+      simp only [checkTagLoop] at h
+      split_ifs at h with h1 h2 h3
+      obtain ⟨ha, hb⟩ := ih v h
+      refine ⟨?_, ?_, hb⟩
+      · intro x hx
+        rcases List.mem_cons.1 hx with rfl | hx
+        · omega
+        · exact ha x hx
+      · omega
+
+/-- `checkTag` accepts exactly well-formed tags: non-empty, no longer than the space, ids in range, strictly increasing -/
+theorem checkTag_none (space tag : List Nat) (h : checkTag space tag = .none) :
+    tag ≠ [] ∧ tag.length ≤ space.length ∧ (∀ v ∈ tag, v < space.length) ∧
+    (match tag with | [] => True | v0 :: r => IncFrom v0 r) := by
+  cases tag with
+  | nil => simp [checkTag] at h
+  | cons v0 r =>
+      simp only [checkTag] at h
+      split_ifs at h with h1 h2
+      obtain ⟨ha, hb⟩ := checkTagLoop_none _ _ _ h
+      refine ⟨by simp, by omega, ?_, hb⟩
+      intro x hx
+      rcases List.mem_cons.1 hx with rfl | hx
+      · omega
+      · exact ha x hx
+
+/-- validate-then-commit for `DDNGraph::push`: a rejected push leaves the graph as it was; an accepted one appends
+    exactly the given parent set, which is well formed -/
+theorem push_spec (hvf : AITB.Gen.Guards.vf_DDNGraph_push = true) (g : Graph) (p : PSet) :
+    ((push AITB.Gen.Guards.vf_DDNGraph_push g p).2 ≠ .none → (push AITB.Gen.Guards.vf_DDNGraph_push g p).1 = g) ∧
+    ((push AITB.Gen.Guards.vf_DDNGraph_push g p).2 = .none →
+        (push AITB.Gen.Guards.vf_DDNGraph_push g p).1 = pushCommit g p ∧ pushCheck g p = .none ∧
+        g.parents.length ≠ g.S.length) := by
+  rw [hvf]
+  simp only [push, if_true]
+  cases hc : pushCheck g p <;> simp
+  unfold pushCheck at hc
+  split_ifs at hc with h1
+  exact h1
+
+theorem push_accepted_wellformed (g : Graph) (p : PSet) (h : pushCheck g p = .none) :
+    checkTag g.A p.agents = .none ∧ p.features.length = spacePartial g.A p.agents ∧
+    ∀ f ∈ p.features, checkTag g.S f = .none := by
+  unfold pushCheck at h
+  split_ifs at h with h1 h2 h3 h4
+  refine ⟨by simpa using h2, by simpa using h3, ?_⟩
+  intro f hf
+  simp only [List.any_eq_true, not_exists, not_and] at h4
+  have := h4 f hf
+  simpa using this
+
+/-! ## OBLIGATIONS over the generated order facts (re-opened by any reordering in the source) -/
+
+/-- in every setter of the four model classes, every `throw` precedes the first write -/
+theorem all_validate_first : allValidateFirst = true := by decide
+
+theorem push_validates_first : AITB.Gen.Guards.vf_DDNGraph_push = true := by decide
+
+/-- hence, unconditionally: a rejected call leaves the object unchanged -/
+theorem rejected_unchanged (k : Kind) (s : St) (op : Op) (hr : (step k s op).2 = true) : (step k s op).1 = s :=
+  step_rejected_unchanged all_validate_first k s op hr
+
 end AITB.MS
